@@ -21,7 +21,9 @@ PREFIXES = ('2001:db8::/64', 'fe80::/64', '2001:db8:1:2::/64',
             # networks whose address is numerically tiny (an integer below
             # 2**32 is an IPv4 address to netaddr.IPAddress) or all ones
             '::/64', '::/0', '::1:0:0:0:0/64',
-            'ffff:ffff:ffff:ffff::/64')
+            'ffff:ffff:ffff:ffff::/64',
+            # no length given: the address is its own /128 network
+            '2001:db8:0:1:8000::', '2001:db8::1', 'fe80::')
 
 
 def _hook(v, val):
@@ -339,7 +341,9 @@ def _result_class(world):
     raise AnalysisError('anchor vanished: the class of urlsplit() results')
 
 
-URLS = ('http://host/path#frag', 'http://h/p?q=1#f', 'http://h/p#f?x',
+URLS = ('http://h/p#sec 2 ', 'http://h/p?q=1 ', 'http://h/p ', ' http://h/p',
+        'http://h/p\t', 'http://h/p#f\x1f', '\x00http://h/p', 'http://h/p\n',
+        'http://host/path#frag', 'http://h/p?q=1#f', 'http://h/p#f?x',
         'svn+ssh://u:pw@h:22/p;x?a=1&a=2#f', '//[::1]:80/x', 'p?x#y',
         'http://h', '', 'mailto:a@b', 'http://h/a%23b?c#d#e',
         'HTTP://User@[fe80::1%25eth0]:8080/p?x=1')
@@ -412,7 +416,10 @@ def _params(ctx):
                'a=%3B&b=%26&a=+', 'a=1&&b=2', '&a=1', 'a', 'a=1=2',
                # values longer than one character, three and more times
                'a=b&a=c&a=de', 'k=one&k=two&k=three&k=four',
-               'a=xy&b=1&a=zw&a=uv&b=22&b=333')
+               'a=xy&b=1&a=zw&a=uv&b=22&b=333',
+               # the same value twice (equal strings may or may not be one
+               # object: both occurrences count)
+               'v=1&v=1', 'a=xy&a=xy', 'v=1&v=1&v=1', 'a=&a=', 'v=1&w=1&v=1')
     for q in queries:
         for collapse in (True, False):
             def thunk(interp):
@@ -423,9 +430,12 @@ def _params(ctx):
             outcomes, _i = extract(world, thunk, setup=_setup())
             key = 'params[%r, collapse=%s]' % (q, collapse)
             notes = inexact_notes(outcomes)
-            if notes or len(outcomes) != 1:
+            if notes or not outcomes:
                 rep.undecided('R15.3', key, 'inexact: %s' % (notes,))
                 continue
+            # several paths: the code asked something the language leaves
+            # open (whether two equal strings are one object); each answer
+            # is possible, so each path is held to the statement
             o = outcomes[0]
             shared = memo_shared(outcomes)
             if shared:
@@ -442,12 +452,17 @@ def _params(ctx):
                     want[k].append(v)
                 else:
                     want[k] = [want[k], v]
-            try:
-                got = ev(o.value, {}, HOOKS) if o.kind == 'return' else None
-            except CannotEval as e:
-                rep.undecided('R15.3', key, str(e))
-                continue
-            rep.case({'query': q, 'collapse': collapse, 'params': str(got)},
-                     ('params', q, collapse))
-            rep.check('R15.3', key, got == want,
-                      'params() yields %r, required %r' % (got, want))
+            for o in outcomes:
+                try:
+                    got = ev(o.value, {}, HOOKS) if o.kind == 'return' \
+                        else None
+                except CannotEval as e:
+                    rep.undecided('R15.3', key, str(e))
+                    break
+                rep.case({'query': q, 'collapse': collapse,
+                          'params': str(got)}, ('params', q, collapse))
+                rep.check('R15.3', key, got == want,
+                          'params() yields %r%s, required %r' % (
+                              got, ' when %s' % [
+                                  (show(t), b) for t, b in o.assumptions]
+                              if len(outcomes) > 1 else '', want))
